@@ -100,6 +100,7 @@ def norm_cmp(s, ls):
 
 
 def check(ctx):
+    limiter_key(ctx)
     R = "C13/guards"
     b = ctx.body(ENQ, rule=R)
     if b is None:
@@ -447,3 +448,18 @@ def check(ctx):
         pos = any("Gt(" in R_(nan.switch_info(blk.idx)[0]) and "secs(param:duration)" in R_(nan.switch_info(blk.idx)[0]) for blk in asserts)
         ctx.check(pos, R, "C13/guards/duration-positive", nb.loc, reason="new() does not insist on duration > 0 (division by zero in the weight)",
                   detail="assert!(duration > 0)")
+
+
+def limiter_key(ctx):
+    """fairness between addresses presupposes that the limiter is asked about the address the client really has: the
+    effective-address clauses of C15 are re-evaluated here (same rule code, C13 keys)"""
+    from .. import core
+    from . import c15
+    sub = core.Ctx(ctx.prop, ctx.prog, ctx.tier, ctx.config)
+    c15.check(sub)
+    seen = 0
+    for o in sub.obligations:
+        if o["key"] in ("C15/effective-address/value", "C15/effective-address/limiter-key-is-ip", "C15/effective-address/single-budget-site"):
+            seen += 1
+            ctx.check(o["ok"], "C13/key-is-client-address", "C13/key-is-client-address/" + o["key"].split("/")[-1], o["site"], reason=o["detail"], detail=o["detail"])
+    ctx.floor("C13/key-is-client-address", "effective-address clauses evaluated", seen, 3)
